@@ -166,7 +166,8 @@ class Executor(object):
         if v is Ellipsis:
             raise Unsupported('Ellipsis')
         if isinstance(v, float):
-            raise Unsupported('float')
+            from . import floats
+            return [Outcome('normal', st, floats.const(v))]
         val = lift_py(v)
         if self.bv and isinstance(val, VInt):
             val = VInt(z3.BitVecVal(v, self.bv))
@@ -237,7 +238,8 @@ class Executor(object):
 
     def binop(self, op, a, b, st, node):
         if isinstance(op, ast.Div):
-            raise Unsupported('true division')
+            from . import floats
+            return floats.truediv(self, a, b, st, node)
         sym = self._BINOPS.get(type(op))
         if sym is None:
             raise Unsupported('binop %s' % type(op).__name__)
@@ -274,6 +276,14 @@ class Executor(object):
             return [Outcome('normal', st, VSeq(smt.s_rep(a.items[0].t, cnt), 'int', 'list'))]
         if isinstance(a, VStr) and isinstance(b, VStr) and sym == '+':
             return [Outcome('normal', st, VStr(a.s + b.s))]
+        if isinstance(a, VStr) and isinstance(b, VInt) and sym == '*':
+            from .values import VStrRep
+            if b.concrete() is not None:
+                return [Outcome('normal', st, VStr(a.s * b.concrete()))]
+            return [Outcome('normal', st, VStrRep('', a.s, b))]
+        if isinstance(a, VStr) and type(b).__name__ == 'VStrRep' and sym == '+':
+            from .values import VStrRep
+            return [Outcome('normal', st, VStrRep(a.s + b.prefix, b.unit, b.count))]
         if isinstance(a, VStr) and sym == '%':
             return [Outcome('normal', st, VStr(a.s))]           # message formatting: content irrelevant
         if isinstance(a, VOpaque) or isinstance(b, VOpaque):
@@ -622,6 +632,16 @@ class Executor(object):
                     ok.assume(z3.And(0 <= val.t, val.t <= 255))   # instance of the isb axiom
                 out.append(Outcome('normal', ok, val))
             return out
+        if type(base).__name__ == 'VTupSeq':
+            i = self._as_int(idx)
+            n = base.len().t
+            ok, bad = self.split(st, z3.And(-n <= i.t, i.t < n))
+            out = []
+            if bad is not None:
+                out.append(self.raise_(bad, IndexError, 'index line %d' % line))
+            if ok is not None:
+                out.append(Outcome('normal', ok, base[i]))
+            return out
         if isinstance(base, (VList, VTuple)):
             i = self._as_int(idx)
             c = i.concrete()
@@ -703,9 +723,11 @@ class Executor(object):
                 out.append(o)
                 continue
             argnodes = []
+            starred = set()
             for a in node.args:
                 if isinstance(a, ast.Starred):
-                    raise Unsupported('*args call')
+                    starred.add(len(argnodes))
+                    a = a.value
                 argnodes.append(a)
             kwnames = []
             for k in node.keywords:
@@ -719,8 +741,29 @@ class Executor(object):
                 npos = len(node.args)
                 args = vals[:npos]
                 kwargs = dict(zip(kwnames, vals[npos:]))
+                if starred:
+                    args = self._expand_starred(args, starred, s, o.val)
                 out.extend(self.call(o.val, args, kwargs, s, fr, node))
         return out
+
+    def _expand_starred(self, args, starred, st, callee):
+        """f(a, *xs): a statically known xs is spliced in; a symbolic-length sequence is passed as
+        values.VStar, accepted only by struct.pack's model."""
+        import struct
+        from .values import VStar
+        res = []
+        for k, a in enumerate(args):
+            if k not in starred:
+                res.append(a)
+                continue
+            items = self.iter_items(a, st)
+            if items is not None:
+                res.extend(items)
+            elif isinstance(a, VSeq) and isinstance(callee, VPy) and callee.obj is struct.pack:
+                res.append(VStar(a))
+            else:
+                raise Unsupported('*args call with a symbolic-length argument')
+        return res
 
     def _mutating_call(self, node, st, fr):
         """x.append(v) etc. on bytearray/list values: rebinding the receiver
@@ -915,7 +958,7 @@ class Executor(object):
             if ext is not None:
                 return ext(self, args, kwargs, st, fr, node)
             # 3. inline small helpers from the real source
-            fs = source.load(qual)
+            fs = source.load(qual, fn)
             if self.reg.may_inline(qual, fs, fr):
                 self.inlined.add(qual)
                 return self.inline(fs, args, kwargs, st, fr, node)
@@ -1576,6 +1619,13 @@ class Executor(object):
                 raise Unsupported('for loop with invariant over %r' % (iterable,))
             if not isinstance(node.target, ast.Name) and seq_iter is None:
                 raise Unsupported('for target')
+        for vn, vt in (getattr(inv, 'var_types', None) or {}).items():
+            # representation change declared by the LoopSpec: a statically known list of tuples that the
+            # loop grows becomes a symbolic-length tuple list (VTupSeq)
+            cur = st.env.get(vn)
+            if vt.kind == 'tuples' and isinstance(cur, VList):
+                from .values import VTupSeq
+                st.env[vn] = VTupSeq.from_items(cur.items, vt.kw['arity'])
         entry = st.fork()
         ns_entry = NS(self, entry, fr, old=st)
 
@@ -1605,6 +1655,8 @@ class Executor(object):
                         s.env.pop(n)
                     if isinstance(s.env.get(n), VSeq) and s.env[n].elem == 'byte':
                         s.assume(isb(s.env[n].t))
+                    if type(s.env.get(n)).__name__ == 'VTupSeq':
+                        s.assume(s.env[n].same_len())
             for (objname, field) in inv.modifies_fields:
                 o = s.env.get(objname.split('.')[0])
                 for part in objname.split('.')[1:]:          # dotted path: field of a field (self.entriesDict)
@@ -1660,6 +1712,7 @@ class Executor(object):
         for bs in body_states:
             pre = bs.fork()
             for ob in self.exec_block(node.body, bs, fr):
+                self._check_loop_frame(pre, ob.st, modified, inv, tag)
                 if ob.kind in ('normal', 'continue'):
                     s2 = ob.st
                     if kind == 'for':
@@ -1696,6 +1749,30 @@ class Executor(object):
             else:
                 res.append(Outcome('normal', a))
         return res
+
+    def _check_loop_frame(self, pre, post, modified, inv, tag):
+        """Soundness guard of the loop cut: everything the body changes must have been havocked for
+        the arbitrary iteration, i.e. be an assigned name / `modifies_vars` or a declared
+        `modifies_fields` heap location (or belong to an object allocated inside the body)."""
+        for n, v in post.env.items():
+            if n in modified or n.startswith('$'):
+                continue
+            if n in pre.env and not same_value(v, pre.env[n]):
+                raise Unsupported('%s: the loop body changes variable %r which is neither assigned by name nor '
+                                  'listed in LoopSpec.modifies_vars' % (tag, n))
+        declared = set()
+        for (objname, field) in inv.modifies_fields:
+            o = pre.env.get(objname.split('.')[0])
+            for part in objname.split('.')[1:]:              # dotted path: field of a field (self.entriesDict)
+                o = pre.heap.get((o.oid, part)) if isinstance(o, VObj) else None
+            if isinstance(o, VObj):
+                declared.add((o.oid, field))
+        for key, v in post.heap.items():
+            if key in declared or key[0] not in pre.fresh_objs and key[0] in post.fresh_objs:
+                continue
+            if key in pre.heap and not same_value(v, pre.heap[key]):
+                raise Unsupported('%s: the loop body changes heap field %r which is not listed in '
+                                  'LoopSpec.modifies_fields' % (tag, key[1]))
 
     def s_Break(self, node, st, fr):
         return [Outcome('break', st)]
